@@ -7,7 +7,7 @@ from ..ast import bind, leaves_of, compounds_of, show
 
 ID = "C03"
 RULE = ("Mode G: every raw AtLeast model of the named families (depth<=2, <=2(3) children, both signs, all relevant "
-        "thresholds, explicit/generated ids, diamond DAGs, constant leaves, nodes pre-fixed by bounds) x every total leaf "
+        "thresholds, explicit/generated ids, diamond DAGs, constant leaves, nodes pre-fixed by bounds, childless compounds, single-variable models) x every total leaf "
         "interpretation x value form (int, numpy.int64, (v,v), Bounds) x overrides of <=2 sub-proposition ids; "
         "oracle = bottom-up arithmetic truth function with fixed nodes; non-trivial = distinct model whose truth table "
         "over the explored assignments is not constant")
@@ -43,10 +43,50 @@ THOROUGH_OVR = [("ovr2", "abc/explicit"), ("ovr2", "diamond/explicit"), ("ovr2",
                 ("ovr1", "fixed/abc"), ("ovr2", "d3/abc/explicit"), ("ovr1", "diamond/generated"), ("ovr1", "abct/explicit")]
 
 
+def leaf_models(acc):
+    """A model may be a single variable: variable.evaluate / evaluate_propositions with every value form (the AtLeast path goes through
+    variable.assume instead, so this is the only way these two methods are reached)."""
+    for bd in ((0, 1), (-2, 2), (1, 1), (0, 3), (-32768, 32767)):
+        for v in ref.domain(bd[0], bd[1], 3):
+            for form in ("int", "np64", "np32", "tuple", "Bounds", "absent"):
+                x = puan.variable("x", bd)
+                val = {"int": v, "np64": np.int64(v), "np32": np.int32(v), "tuple": (v, v), "Bounds": puan.Bounds(v, v)}.get(form)
+                interp = {"y": 1} if form == "absent" else {"x": val, "y": 0}
+                want = bd if form == "absent" else (v, v)
+                case = {"mode": "leaf", "bounds": bd, "v": v, "form": form}
+                acc.n("traces")
+                acc.n("transitions", 2)
+                acc.state(("leaf", bd, v, form))
+                try:
+                    got = x.evaluate(interp)
+                    gotp = x.evaluate_propositions(interp)
+                except BaseException as e:
+                    acc.violation(None, case, {"what": "variable.evaluate raised on a documented value form", "exc": repr(e)})
+                    continue
+                if tuple(map(int, got.as_tuple())) != want or set(gotp) != {"x"} or tuple(map(int, gotp["x"].as_tuple())) != want:
+                    acc.violation(None, case, {"what": "a single-variable model does not evaluate to the given value / its bounds", "got": repr(got), "want": want})
+
+
+def empties():
+    """Compound nodes without children (accepted by errors()): value in {-1,0,1} x sign, alone and next to other children."""
+    from ..ast import N, L
+    out = []
+    for s in (1, -1):
+        for v in (-1, 0, 1):
+            E = N("E", s, v, [])
+            out.append(N("A", 1, 1, [E]))
+            for s2 in (1, -1):
+                for v2 in (-1, 0, 1, 2):
+                    out.append(N("A", s2, v2, [E, L("a")]))
+                    out.append(N("A", s2, v2, [E, N("B", 1, 1, [L("a"), L("b")])]))
+    return out
+
+
 def shards(tier):
     names = QUICK if tier == "quick" else THOROUGH
     ovr = QUICK_OVR if tier == "quick" else THOROUGH_OVR
-    out = [("plain",) + s for s in families.shards_for(names, 700)]
+    out = [("leaf", "-", 0, 0), ("empty", "-", 0, 0)]
+    out += [("plain",) + s for s in families.shards_for(names, 700)]
     for mode, fam in ovr:
         out += [(mode,) + s for s in families.shards_for([fam], 400)]
     return out
@@ -54,6 +94,13 @@ def shards(tier):
 
 def run_shard(desc, acc, tier):
     mode, fam, lo, hi = desc
+    if mode == "leaf":
+        leaf_models(acc)
+        return
+    if mode == "empty":
+        for k, m in enumerate(empties()):
+            check_model(m, acc, "plain", "empty", k)
+        return
     models = families.family(fam)[lo:hi]
     for k, m in enumerate(models, start=lo):
         check_model(m, acc, mode, fam, k)
@@ -151,5 +198,8 @@ def one(m, alpha, ovr, form, idof, acc, fam, k, mode, oi, tvals):
 
 def replay(case, acc):
     from ..runner import tuplify
+    if case.get("mode") == "leaf":
+        leaf_models(acc)
+        return
     m = tuplify(case["ast"])
     check_model(m, acc, case["mode"], case["fam"], case["k"], only_alpha=case["alpha"], only_ovr=case["ovr"], only_form=case["form"])
